@@ -11,62 +11,62 @@ CHECKS = {
    text="Seeded search over RDB files written by an independent reference writer (all types/encodings/length forms, metadata opcodes, >16 MiB hashes) parsed by the real loader behind a fragmenting, truncating stream with producer/consumer interleaving; every record compared field by field and byte for byte with the file.",
    tech="deterministic simulation: reference RDB writer as generator/oracle, simulated stream with fragmentation and truncation faults, scheduled producer/consumer"),
  "C02": dict(engine="simrt+simnet+modelredis", cat="exploration", ref="DESIGN.md 5/C02",
-   text="Seeded search over (entry, configuration, target flavour, pre-existing key) with the real RestoreRdbEntry talking redigo/RESP over a simulated connection to a Redis model; the target keyspace is compared with the reference decoding of the source bytes, TTL to the millisecond of simulated time.",
+   text="Seeded search over (entry, configuration, target flavour, pre-existing key) with the real RestoreRdbEntry talking redigo/RESP over a simulated connection to a Redis model; the target keyspace is compared with the reference decoding of the source bytes, TTL to the millisecond of simulated time. Faults: connection reset after a tape-chosen number of bytes (a success must still be exact); the parser runs as a concurrent task.",
    tech="deterministic simulation: real restore code against a simulated network and Redis reference model, reference decoder as oracle"),
  "C10": dict(engine="simrt+refcodec", cat="exploration", ref="DESIGN.md 5/C10",
-   text="Seeded search over RESP value trees, inline commands and keep-alives: tool encoder vs reference printer, tool decoder behind a fragmenting stream with per-element value/leftover/offset checks, and truncation/one-byte corruption compared with a reference parser.",
+   text="Seeded search over RESP value trees, inline commands and keep-alives: tool encoder vs reference printer, tool decoder behind a fragmenting stream with per-element value/leftover/offset checks, and truncation/one-byte corruption compared with a reference parser. Half of the encodings use arguments that share one buffer, which must be unchanged afterwards.",
    tech="deterministic simulation of the input stream (fragmentation, truncation, corruption) + reference RESP printer/parser as oracle"),
  "C11": dict(engine="refcodec", cat="fault_enumeration", ref="DESIGN.md 5/C11",
    text="Per generated artefact (RDB file, every DUMP payload the loader emits) every byte position is substituted (3 alternatives quick, all 255 thorough), trailers are truncated and versions raised with a recomputed CRC; every mutant must be rejected; the three CRC-64 implementations are compared with a bitwise reference under arbitrary chunking.",
    tech="fault enumeration: exhaustive single-byte corruption per artefact with a simulated allocator limit; bitwise CRC-64 reference",
    note="Trusted base: refcodec CRC-64/RDB writer, the simulated allocator seam (single []byte allocations above 600 MiB abort the simulated process), go1.26.8. Exhaustive over byte positions per artefact, sampled over artefacts."),
  "C15": dict(engine="refcodec", cat="exploration", ref="DESIGN.md 5/C15",
-   text="Seeded input search: keys with every brace arrangement against the cluster specification implemented bit by bit, all CRC16 copies (unexported ones through scratch-only export shims), and shard slot ranges for the checkpoint key and the key filter. Pure-function property: schedules/faults do not apply to this part.",
+   text="Seeded input search: keys with every brace arrangement against the cluster specification implemented bit by bit, all CRC16 copies (unexported ones through scratch-only export shims), and shard slot ranges for the checkpoint key and the key filter. Pure-function property: schedules/faults do not apply to this part. The simulated shard-sync part runs one to three shards at once.",
    tech="seeded input generation with shrinking on the tape; specification-text reference (no scheduler involvement: pure function)"),
  "C03": dict(engine="simrt+simnet+modelredis", cat="exploration", ref="DESIGN.md 5/C03",
    text="Seeded search over source command streams x filters x sender thresholds x release timing around the flush ticker x network profile x schedules, with the real DbSyncer pipeline between a master model and a target model; the target's applied-command log must equal the reference filter of the stream, and every command must arrive within a bounded simulated time.",
    tech="deterministic simulation: full sync pipeline under a tape-driven scheduler, simulated TCP/clock, master+target reference models, reference filter as oracle"),
  "C08": dict(engine="simrt+simnet+modelredis", cat="exploration", ref="DESIGN.md 5/C08",
-   text="Seeded search over traffic histories spanning several ACK ticks, start offsets, and up to two cuts of the replication link at tape-chosen stream positions with refused re-dials; the oracle reads the tool's own REPLCONF ACK / PSYNC writes together with the exact number of bytes its reads had returned, and checks end-to-end stream continuity and checkpoint offsets.",
+   text="Seeded search over traffic histories spanning several ACK ticks, start offsets, and up to two cuts of the replication link at tape-chosen stream positions with refused re-dials; the oracle reads the tool's own REPLCONF ACK / PSYNC writes together with the exact number of bytes its reads had returned, and checks end-to-end stream continuity and checkpoint offsets. Link drops are resets or orderly closes (FIN); a quarter of the runs have a slow target.",
    tech="deterministic simulation: recorded simulated transport (byte-exact read/write events), link-cut fault injection, master/target models"),
  "C04": dict(engine="simrt+simnet+modelredis", cat="exploration", ref="DESIGN.md 5/C04",
-   text="Seeded search over source histories, batchings and 1-3 interruption points (target connection cut at a byte position, reset at an instant, crash of the tool process) followed by restart and resume; at every cut the target dataset must equal a reference interpreter fed with the source history up to the stored checkpoint offset, and at the end an uninterrupted run.",
+   text="Seeded search over source histories, batchings and 1-3 interruption points (target connection cut at a byte position, reset at an instant, crash of the tool process) followed by restart and resume; at every cut the target dataset must equal a reference interpreter fed with the source history up to the stored checkpoint offset, and at the end an uninterrupted run. One run in eight syncs two sources with two DbSyncers in one process (each group must carry its own source's checkpoint).",
    tech="deterministic simulation with crash/restart and connection-cut fault injection; reference interpreter (detached Redis model) as oracle"),
  "C05": dict(engine="simrt+simnet+modelredis", cat="exploration", ref="DESIGN.md 5/C05",
-   text="Seeded search over reply framings (keep-alive newlines, letter case, RDB sizes around the copy buffer, command bytes riding with the RDB) x heavy TCP segmentation/latency/short reads/small windows x schedules, through the real PSYNC hand-off and dump mode; the target must hold exactly the RDB keys and apply exactly the following commands, the dump file must be byte-identical.",
+   text="Seeded search over reply framings (keep-alive newlines, letter case, RDB sizes around the copy buffer, command bytes riding with the RDB) x heavy TCP segmentation/latency/short reads/small windows x schedules, through the real PSYNC hand-off and dump mode; the target must hold exactly the RDB keys and apply exactly the following commands, the dump file must be byte-identical. One sync run in four resets the source link after the hand-off and checks the reconnect PSYNC.",
    tech="deterministic simulation: simulated TCP with tape-chosen segmentation against the real sync hand-off and dump mode, master/target models"),
  "C13": dict(engine="simrt+simnet+modelredis", cat="exploration", ref="DESIGN.md 5/C13",
-   text="Seeded search over the tool's own write-command table (read at run time) x arities x per-key pass/fail x whitelist/blacklist, observed as the command received by the target model in a simulated incremental sync; key positions come from the Redis command documentation.",
+   text="Seeded search over the tool's own write-command table (read at run time) x arities x per-key pass/fail x whitelist/blacklist, observed as the command received by the target model in a simulated incremental sync; key positions come from the Redis command documentation. A third of the runs sync two sources with two DbSyncers in one process.",
    tech="deterministic simulation as observation path (incremental sync into a logging target model) + documented key specifications as reference"),
  "C07": dict(engine="simrt+simnet+modelredis", cat="exploration", ref="DESIGN.md 5/C07",
-   text="Seeded search over RDB contents x filters x target.db x key_exists x 1-8 parallel workers x per-connection latency x worker interleavings, through the real full-sync phase and restore mode (real file); the target dataset is compared key by key with the reference decoding; injected error replies must never be hidden behind a signalled completion.",
+   text="Seeded search over RDB contents x filters x target.db x key_exists x 1-8 parallel workers x per-connection latency x worker interleavings, through the real full-sync phase and restore mode (real file); the target dataset is compared key by key with the reference decoding; injected error replies must never be hidden behind a signalled completion. Faults added: reset of one worker connection, slow storage (stalled reads), several input files restored at once.",
    tech="deterministic simulation: scheduled worker pool against a target model with injected error replies; reference decoder and filter predicate as oracle"),
  "C16": dict(engine="simrt+simnet+modelredis", cat="exploration", ref="DESIGN.md 5/C16",
-   text="Seeded search over source keyspaces, adversarial SCAN paginations, keys vanishing between SCAN/DUMP/PTTL, batch sizes, big-key thresholds, filters, target.db, QoS rates and key-file scans, through the real rump pipeline (fetcher/writer/receiver) between a source and a target model; surviving keys must arrive with value and remaining TTL, vanished ones must be skipped, the run must end.",
+   text="Seeded search over source keyspaces, adversarial SCAN paginations, keys vanishing between SCAN/DUMP/PTTL, batch sizes, big-key thresholds, filters, target.db, QoS rates and key-file scans, through the real rump pipeline (fetcher/writer/receiver) between a source and a target model; surviving keys must arrive with value and remaining TTL, vanished ones must be skipped, the run must end. Slow source, qps down to 3, and no target reply may be unread when Main returns.",
    tech="deterministic simulation: scan adversary + key mutator in the source model, scheduled three-stage pipeline, reference decoder as oracle"),
  "C14": dict(engine="simrt+simnet+modelredis", cat="exploration", ref="DESIGN.md 5/C14",
-   text="Seeded search over target states reachable by histories of checkpoint writes/partial clears from several sources with related addresses, read by the real LoadCheckpoint over a simulated connection (optionally cut mid-load); result and side effects compared with a reference arg-max.",
+   text="Seeded search over target states reachable by histories of checkpoint writes/partial clears from several sources with related addresses, read by the real LoadCheckpoint over a simulated connection (optionally cut mid-load); result and side effects compared with a reference arg-max. One run in six lets the real sender write the checkpoints that the loader then reads.",
    tech="deterministic simulation: history generator + target model, connection-cut fault, reference arg-max oracle"),
  "C20": dict(engine="simrt+simnet+modelredis", cat="exploration", ref="DESIGN.md 5/C20",
-   text="Seeded search over shard topologies, node orderings and per-node per-attempt failure sequences (refused dial, error reply, missing role, garbage) against the real supervisor with its back-off sleeps on the simulated clock; the selected node must have reported master in the deciding round, all others listed, and failure must be bounded.",
+   text="Seeded search over shard topologies, node orderings and per-node per-attempt failure sequences (refused dial, error reply, missing role, garbage) against the real supervisor with its back-off sleeps on the simulated clock; the selected node must have reported master in the deciding round, all others listed, and failure must be bounded. A quarter of the runs are a restart chain through the real DbSyncer with the master role moving between restarts.",
    tech="deterministic simulation: node models with tape-drawn per-attempt behaviour, refused-dial faults, simulated clock for the retry back-off"),
  "C17": dict(engine="simrt+refcodec", cat="exploration", ref="DESIGN.md 5/C17",
-   text="Seeded search over RDB files (every classic encoding, binary keys, special scores, scripts) x 1-8 parallel decoders x interleavings of parser, decoders and writer, through the real decode mode on real files; the multiset of printed elements must equal the reference decoding.",
+   text="Seeded search over RDB files (every classic encoding, binary keys, special scores, scripts) x 1-8 parallel decoders x interleavings of parser, decoders and writer, through the real decode mode on real files; the multiset of printed elements must equal the reference decoding. Pre-existing output files and slow storage (stalled writes) are part of the space.",
    tech="deterministic simulation: scheduled decoder pool over real files; reference RDB writer/decoder as generator and oracle"),
  "C12": dict(engine="simrt+refcodec+modelredis", cat="exploration", ref="DESIGN.md 5/C12",
-   text="Seeded input search: logical values through EncodeDump/DecodeDump and the reference (Redis-semantics) decoder, loader payloads of every compact encoding through DecodeDump, the in-repo cupcake encoder, and files written by the tool's Encoder restored through a simulated restore run into a target model. Three of the four parts are pure functions (no scheduler involvement).",
+   text="Seeded input search: logical values through EncodeDump/DecodeDump and the reference (Redis-semantics) decoder, loader payloads of every compact encoding through DecodeDump, the in-repo cupcake encoder, and files written by the tool's Encoder restored through a simulated restore run into a target model. Three of the four parts are pure functions (no scheduler involvement). A third of the runs start with damaged payloads (valid trailers) that must leave nothing behind.",
    tech="seeded generation with reference codecs as oracle; deterministic simulation only for the file-through-restore part"),
  "C06": dict(engine="simrt+simnet+modelredis", cat="exploration", ref="DESIGN.md 5/C06",
    text="Seeded search over keyspaces built around the configured prefixes (prefixes/extensions, hash tags, checkpoint keys, the key 'lua'), database numbers that are string-prefixes of one another, slot lists and filter.lua, each pushed through full sync, incremental sync, restore mode and rump in simulated runs; per path and key the observed copy decision must equal the statement's predicate.",
    tech="deterministic simulation of the four data paths against models; statement-derived filter predicate as oracle"),
  "C19": dict(engine="simrt+simnet+modelredis", cat="exploration", ref="DESIGN.md 5/C19",
-   text="Cross-cutting monitor: fresh random sentinel passwords per run, seven run paths (sync incl. restart after a target cut and reconnect after a source cut, restore, rump, checkpoint load, supervisor, incl. AUTH failures) at four log levels; every captured log byte and status document is searched for the sentinels in raw/hex/base64 form.",
+   text="Cross-cutting monitor: fresh random sentinel passwords per run, seven run paths (sync incl. restart after a target cut and reconnect after a source cut, restore, rump, checkpoint load, supervisor, incl. AUTH failures) at four log levels; every captured log byte and status document is searched for the sentinels in raw/hex/base64 form. Nine run paths incl. dump and decode; peers that reject AUTH with the arguments echoed.",
    tech="deterministic simulation of the run paths with injected resets/restarts; secret-sentinel scan over captured logs and status documents"),
  "C18": dict(engine="simrt", cat="exploration", ref="DESIGN.md 5/C18",
-   text="Seeded search over writer/reader/closer scripts and lock-granularity interleavings of the real backlog ring against an absolute-offset log model (interval semantics for in-flight writes), with lost-wake-up analysis at quiescence.",
+   text="Seeded search over writer/reader/closer scripts and lock-granularity interleavings of the real backlog ring against an absolute-offset log model (interval semantics for in-flight writes), with lost-wake-up analysis at quiescence. One run in six has several writers at once (every Write must land contiguously); every statement of the package is a scheduling point.",
    tech="deterministic simulation: tape-driven baton scheduler over instrumented locks/conds + absolute-offset log model"),
  "C09": dict(engine="simrt", cat="exploration", ref="DESIGN.md 5/C09",
-   text="Seeded search over writer/reader/closer scripts and lock-granularity interleavings of the real pipe code against a byte-queue model, with lost-wake-up analysis at quiescence; every failure is a minimised replayable tape.",
+   text="Seeded search over writer/reader/closer scripts and lock-granularity interleavings of the real pipe code against a byte-queue model, with lost-wake-up analysis at quiescence; every failure is a minimised replayable tape. Repeated closes (first close wins); every statement of the package is a scheduling point, so dropped or narrowed locks show.",
    tech="deterministic simulation: tape-driven baton scheduler over instrumented locks/conds + reference byte queue"),
 }
 NOT_YET = "not claimed yet: the check for this property has not been built in this revision of /verif (see DESIGN.md 8 for the order of work)"
